@@ -73,8 +73,9 @@ def plan(tier, seed):
             scs.append(dict(kind='mass', tau=ti, lo=i, hi=min(len(ms), i + 25)))
     scs += [dict(kind='cycle', lo=i, hi=min(len(TABLE), i + 10)) for i in range(0, len(TABLE), 10)]
     scs += [dict(kind='sequence', order=o) for o in range(len(SEQ_ORDERS))]
+    scs += [dict(kind='many', n=n, order=o, bad=b) for n in (9, 10, 11, 12, 100, len(TABLE), 256, 257, 300, 1000) for o in (0, 1) for b in (0, 1)]
     return dict(scenarios=scs, exhaustive=True, chunk=4,
-                menus=dict(table_entries=len(TABLE), tolerances=TAUS, routes=['guess_elements_from_masses', 'load_lmpdat single type', 'load_lmpdat mixed with non-atomic type', 'load_lmpdat mixed with valid type', 'write/read cycle per element', 'call histories with changing tolerances (same process)']),
+                menus=dict(table_entries=len(TABLE), tolerances=TAUS, routes=['guess_elements_from_masses', 'load_lmpdat single type', 'load_lmpdat mixed with non-atomic type', 'load_lmpdat mixed with valid type', 'write/read cycle per element', 'call histories with changing tolerances (same process)', 'many types in one call / file (9 ... 1000)']),
                 bounds=dict(), rule='every table entry x offset x tolerance, every adjacent-pair midpoint/boundary, every wide gap; non-trivial = mass within tolerance of >= 2 elements or of none',
                 assumptions=['the mass table mofun/atomic_masses.py is the parameter of the property (read from the repo)',
                              'masses within 1e-9 of a tolerance boundary are skipped (undecidable in floating point)'])
@@ -96,6 +97,51 @@ def run(sc, ctx):
             out['outcomes'][key] = out['outcomes'].get(key, 0) + 1
             if len(got) != 1 or got[0] not in exp or (len(exp) == 1 and got[0] != el):
                 out['violations'].append(viol('cycle', 'cycle', 'element %s (mass %r) came back as %r after a write/read cycle; nearest within 0.1: %s' % (el, m, got, sorted(exp)), sc, element=el))
+        return out
+    if sc['kind'] == 'many':
+        # many atom types in one call / one file: table order or reversed, optionally with one non-atomic mass at the end
+        n = sc['n']; tab = TABLE if sc['order'] == 0 else TABLE[::-1]
+        masses = [round(tab[(i * 7) % len(tab)][1] + 0.004 * ((i % 5) - 2), 6) for i in range(n)]
+        if sc['bad']:
+            masses[-1] = 150.0
+        exps = [ref_mass(m, 0.1) for m in masses]
+        want = 'type numbers' if sc['bad'] else 'the nearest elements'
+        for route in ('helper', 'loader', 'cycle'):
+            if route == 'helper':
+                r, err = call(guess_elements_from_masses, list(masses), max_delta=0.1)
+                got = None if err else [str(x) for x in r]
+            elif route == 'loader':
+                b, err = call(Atoms.load_lmpdat, io.StringIO(lmpdat(masses)), guess_atol=0.1)
+                got = None if err else [str(x) for x in b.atom_type_elements]
+                if err:
+                    out['violations'].append(viol('loader', 'many-exc:' + exc_sig(err), 'load_lmpdat raised %r for a file with %d atom types' % (err[0], n), sc)); continue
+                if got == [str(i + 1) for i in range(n)]:
+                    got = None
+            else:
+                if sc['bad']:
+                    continue
+                els = [sorted(e)[0] for e in exps]
+                a = Atoms(elements=els, positions=[(1.0 + 0.001 * i, 1, 1) for i in range(n)], cell=10 * np.identity(3))
+                st = io.StringIO(); _, err = call(a.save_lmpdat, st)
+                b, err = call(Atoms.load_lmpdat, io.StringIO(st.getvalue())) if not err else (None, err)
+                if err:
+                    out['violations'].append(viol('cycle', 'many-exc:' + exc_sig(err), 'write/read cycle of %d elements raised %r' % (n, err[0]), sc)); continue
+                got = [str(x) for x in b.elements]
+                exps_c = [ref_mass(float('%10.6f' % ATOMIC_MASSES[e]), 0.1) for e in els]
+                bad = [(i, els[i], got[i]) for i in range(n)] if len(got) != n else [(i, els[i], got[i]) for i in range(n) if got[i] not in exps_c[i]]
+                out['evals'] += 1; out['compared'] += 1
+                if bad:
+                    out['violations'].append(viol('cycle', 'many-cycle', 'write/read cycle of a structure with %d elements (one type each): %d atoms come back with another element, first (index, written, read) %r' % (n, len(bad), bad[:4]), sc))
+                continue
+            out['evals'] += 1; out['compared'] += 1
+            if sc['bad']:
+                if got is not None:
+                    out['violations'].append(viol('no-invention', 'many-' + route, '%s with %d masses of which the last (150.0) is no element: got elements %r..., expected %s' % (route, n, got[-3:], want), sc))
+            elif got is None or len(got) != n or any(g not in e for g, e in zip(got, exps)):
+                first = None if got is None or len(got) != n else [(i, masses[i], got[i], sorted(exps[i])) for i in range(n) if got[i] not in exps[i]][:3]
+                out['violations'].append(viol('nearest' if route == 'helper' else 'loader', 'many-' + route, '%s with %d genuine element masses: %s; first wrong (index, mass, got, nearest) %r' % (
+                    route, n, 'no elements (raised / type numbers)' if got is None else '%d elements' % len(got), first), sc))
+        out['hashes'].add(h64(('many', n, sc['order'], sc['bad']))); out['nontrivial'] += 1; out['outcomes']['many types'] = 1
         return out
     if sc['kind'] == 'sequence':
         # histories of calls in one process: the answer for a mass must depend on the tolerance of *this* call only
